@@ -7,6 +7,16 @@ from . import clt, energy
 
 
 def laminate_F(d, fsdt_K=5 / 6.):
+    F, S = _laminate_F(d, fsdt_K)
+    f = d.get('F_reuse_factor')
+    if f:
+        # the shell was handed this matrix directly (ConeCyl.F_reuse): the stack's own matrix times a factor, so that a
+        # code path falling back to the stack cannot go unnoticed
+        return F * f, S * f
+    return F, S
+
+
+def _laminate_F(d, fsdt_K=5 / 6.):
     if 'stack' not in d:
         E, nu, h = d['E11'], d['nu'], d['h']
         G = E / (2 * (1 + nu))
